@@ -173,7 +173,7 @@ def recoverable(listing):
     return s
 
 
-def judge_state(sc, before, now, phase, extra_ids=()):
+def judge_state(sc, before, now, phase, extra_ids=(), unlink_failed=False):
     """before/now: read_dir results.  yields (key, what)"""
     have = recoverable(now)
     # before-files in age order (records are numbered in write order)
@@ -195,7 +195,9 @@ def judge_state(sc, before, now, phase, extra_ids=()):
         if sc["N"] < 2:
             yield ("C10:records-lost:whole-file-without-retention:%s" % phase,
                    "all %d records of %s (on disk before the operation) are gone although N=%d never deletes" % (len(ent["ids"]), name, sc["N"]))
-        elif not gone_prefix:
+        elif not gone_prefix and not unlink_failed:
+            # (when the injected fault is a failing unlink, retention cannot remove the oldest file and legitimately moves on to the next
+            # one within its count - the undeletable older file survives)
             yield ("C10:records-lost:not-oldest-first:%s" % phase,
                    "all records of %s are gone while an older file's records survive" % name)
         elif n_rot_now < sc["N"] - 1:
@@ -294,7 +296,8 @@ def run_scenario(args):
         ctxs = "k=%d/%d call=%s %s%s%s" % (k, len(events), events[k - 1]["k"] if k <= len(events) else "none", label,
                                             ("(" + ename + ")") if ename else "", (" then crash at +%d" % then) if then else "")
         now = read_dir(logs, sc)
-        for key, what in judge_state(sc, before, now, "after-fault"):
+        unlink_failed = mode in (3, 4) and k <= len(events) and (events[k - 1]["k"] == "unlink" or mode == 4)
+        for key, what in judge_state(sc, before, now, "after-fault", unlink_failed=unlink_failed):
             sink.append((key, "%s :: %s :: dir=%s" % (ctxs, what, {n: (e["size"], e["intact"]) for n, e in now.items()}), fault))
         rcB, errB, recsB = run_script(exe, env, sb, d, "b")
         res["children"] += 1
@@ -302,7 +305,7 @@ def run_scenario(args):
             sink.append(("C10:restart-failed", "%s :: restarted sink exit status %s: %s" % (ctxs, rcB, errB[-400:]), fault))
             return recsA, crashed
         fin = read_dir(logs, sc)
-        for key, what in judge_state(sc, before, fin, "after-restart", ids["z"]):
+        for key, what in judge_state(sc, before, fin, "after-restart", ids["z"], unlink_failed=unlink_failed):
             sink.append((key, "%s :: %s :: dir=%s" % (ctxs, what, {n: (e["size"], e["intact"]) for n, e in fin.items()}), fault))
         shutil.rmtree(d, ignore_errors=True)
         return recsA, crashed
